@@ -31,9 +31,9 @@ Definition audited_sites : list audit := [
   mkAudit "x/distributor/keeper/abci.go" "Keeper.BeginBlocker" KTimeNow "time.Now" 1 "92bfd685b2648183" (Harmless tele);
   mkAudit "x/evidence/abci.go" "BeginBlocker" KTimeNow "time.Now" 1 "18897b690c06b9a3" (Harmless tele);
   mkAudit "x/evidence/module.go" "AppModule.RandomizedParams" KRand "math/rand.Rand" 1 "af3ca6c58f9814fc" (Harmless simu);
-  mkAudit "x/gov/genesis.go" "InitGenesis" KMapRange "genesisState.DataRegistry" 1 "9fab551031a75cbb" (Harmless "one store write per distinct key: the writes commute");
-  mkAudit "x/gov/genesis.go" "InitGenesis" KMapRange "genesisState.ProposalDurations" 1 "9fab551031a75cbb" (Harmless "collects the keys only; they are sorted before use (commit f1cf68b)");
-  mkAudit "x/gov/genesis.go" "InitGenesis" KMapRange "genesisState.RolePermissions" 1 "9fab551031a75cbb" (Harmless "each role's keys are written from that role's slice only; roles commute");
+  mkAudit "x/gov/genesis.go" "InitGenesis" KMapRange "genesisState.DataRegistry" 1 "327ac8651436b573" (Harmless "one store write per distinct key: the writes commute");
+  mkAudit "x/gov/genesis.go" "InitGenesis" KMapRange "genesisState.ProposalDurations" 1 "327ac8651436b573" (Harmless "collects the keys only; they are sorted before use (commit f1cf68b)");
+  mkAudit "x/gov/genesis.go" "InitGenesis" KMapRange "genesisState.RolePermissions" 1 "327ac8651436b573" (Harmless "each role's keys (permission record, whitelist and - since 53081b1 - blacklist index entries) are written from that role's slices only; roles commute");
   mkAudit "x/gov/keeper/grpc_query.go" "Keeper.AllExecutionFees" KMapRange "kiratypes.MsgFuncIDMapping" 1 "0db0ac36ee111344" (Harmless "gRPC query only");
   mkAudit "x/gov/keeper/util.go" "CheckIfAllowedPermission" KMapRange "roles" 2 "b81d052d3105cc53" (Harmless "idempotent writes into a permission map: a whitelist pass, then a blacklist pass");
   mkAudit "x/gov/types/genesis.pb.go" "GenesisState.MarshalToSizedBuffer" KPbMap "m.DataRegistry" 1 "0b1e1d8c01deee09" (Harmless gjs);
